@@ -97,6 +97,17 @@ func c17Run(cfg Cfg, src string, ext bool, r *fw.Rand) (o c17Obs) {
 
 func c17Twin(w *fw.W, idx int, r *fw.Rand) {
 	var src, fam string
+	if r.P(1, 12) {
+		// names bound to null in an inner scope while an outer scope (or a builtin) has a value:
+		// identity load hooks must not change which binding a read finds
+		src, fam = r.Pick([]string{
+			"x = 7; func f(x) { x }; f(null)", "y = 3; func g() { y = null; y }; g()", "x = 7; func f(x) { [x, x ?? 1] }; f(null)",
+			"&c = (z = null) ?? 5; z = 9; c", "func h(abs) { abs }; h(null)", "k = 'outer'; func f(k) { `{k}` }; f(null) + k",
+			"x = 1; func f(x) { func g() { x }; g() }; f(null)", "x = [1]; func f(x) { x ?? 'inner null' }; [f(null), f(2)]",
+			"func f(v) { v = null; v }; v = 4; f(1)", "q = 5; &cq = q; func f(q) { cq }; f(null)",
+		}), "null-shadow"
+		goto haveSrc
+	}
 	switch r.Intn(7) {
 	case 0, 1:
 		src, fam = gen.ValidProgram(r, 3, r.Bool()), "valid"
@@ -113,6 +124,7 @@ func c17Twin(w *fw.W, idx int, r *fw.Rand) {
 		c := gen.Corpus()
 		src, fam = gen.Mutate(r, c[r.Intn(len(c))]), "mutated-corpus"
 	}
+haveSrc:
 	cfg := RandCfg(r)
 	cfg.Seed = r.U64() | 1
 	cfg.OpLimit = 20000
@@ -244,7 +256,88 @@ func c17Fragment(r *fw.Rand) c17Frag {
 	}
 }
 
+// c17Overlap: a regex syntax and a stream syntax that both match at the same operand start; the
+// one registered first handles every such operand ("syntaxes are tried in registration order").
+func c17Overlap(w *fw.W, idx int, r *fw.Rand) {
+	regexFirst := r.Bool()
+	nOps := r.Range(1, 4)
+	var terms []string
+	sum := 0
+	for i := 0; i < nOps; i++ {
+		k := r.Intn(50)
+		terms = append(terms, fmt.Sprintf("Q%d", k))
+		sum += k
+	}
+	src := strings.Join(terms, r.Pick([]string{" + ", "+", " +"}))
+	desc := fmt.Sprintf("overlap regexFirst=%v src=%q", regexFirst, src)
+	w.Begin(idx, desc)
+	cfg := AllDice()
+	cfg.Seed = r.U64() | 1
+	vm := cfg.NewVM()
+	var log []string
+	regRe := func() {
+		_ = vm.RegCustomDice(`Q(\d+)`, func(ctx *ds.Context, groups []string, _ any) (*ds.VMValue, string, error) {
+			log = append(log, "re")
+			k, _ := strconv.Atoi(groups[1])
+			return ds.NewIntVal(ds.IntType(1000 + k)), "", nil
+		})
+	}
+	regSt := func() {
+		_ = vm.RegCustomDiceParser(func(ctx *ds.Context, s *ds.CustomDiceStream) (*ds.CustomDiceParseResult, error) {
+			c, ok := s.Read()
+			if !ok || c != 'Q' {
+				s.ResetAttempt()
+				return &ds.CustomDiceParseResult{Matched: false}, nil
+			}
+			d, ok := s.ReadDigits()
+			if !ok {
+				s.ResetAttempt()
+				return nil, nil
+			}
+			return &ds.CustomDiceParseResult{Matched: true, Groups: []string{"", d}}, nil
+		}, func(ctx *ds.Context, groups []string, _ any) (*ds.VMValue, string, error) {
+			log = append(log, "st")
+			k, _ := strconv.Atoi(groups[1])
+			return ds.NewIntVal(ds.IntType(2000 + k)), "", nil
+		})
+	}
+	base, kind := 2000, "st"
+	if regexFirst {
+		regRe()
+		regSt()
+		base, kind = 1000, "re"
+	} else {
+		regSt()
+		regRe()
+	}
+	var err error
+	pv, st := fw.Guard(func() { err = vm.Run(src) })
+	w.Eval(1)
+	w.Count("overlap_programs", 1)
+	if pv != nil {
+		w.Violate(idx, "panic", fw.PanicKey(pv, st), desc, fmt.Sprint(pv), nil)
+		return
+	}
+	if err != nil {
+		w.Violate(idx, "extension", "ext|overlap|rejected", desc, firstLine(err.Error()), nil)
+		return
+	}
+	want := make([]string, nOps)
+	for i := range want {
+		want[i] = kind
+	}
+	got, _ := vm.Ret.ReadInt()
+	if fmt.Sprint(log) != fmt.Sprint(want) || int(got) != base*nOps+sum {
+		w.Violate(idx, "extension", "ext|overlap|registration-order", desc, fmt.Sprintf("handlers run %v (want %v), result %d (want %d): the syntax registered first must handle the operand", log, want, got, base*nOps+sum), nil)
+	}
+	w.Note(fw.Hash64(desc))
+}
+
 func c17Match(w *fw.W, idx int, r *fw.Rand) {
+	if r.P(1, 20) {
+		c17Overlap(w, idx, r)
+		return
+	}
 	n := r.Range(1, 3)
 	var srcs []string
 	var want []string
